@@ -36,9 +36,9 @@ def encVerdict (v : Verdict) : String :=
 def handle (cmd : String) (args : List Int) : Option String :=
   match cmd with
   | "C18.model" => do
-      -- repaired(0/1) NF nodes cents
+      -- flags (1 = tangent-plane key, 2 = gather non-fill entries; 3 = repaired algorithm) NF nodes cents
       let (rep, i) ← run (do let r ← nat; let i ← inP; pure (r, i)) args
-      pure (encRows (constructDual numF (rep != 0) i.nodes i.cents i.NF))
+      pure (encRows (constructDual numF (rep % 2 == 1) (rep / 2 % 2 == 1) i.nodes i.cents i.NF))
   | "C18.discrete" => do
       let (NF, D) ← run (do let a ← rows; let b ← rows; pure (a, b)) args
       pure (encBool (decide (DiscreteSpec NF D)))
@@ -47,6 +47,10 @@ def handle (cmd : String) (args : List Int) : Option String :=
       let (i, t, eps, D) ← run (do
         let i ← inP; let t ← topoP; let eps ← float; let D ← rows; pure (i, t, eps, D)) args
       pure (encVerdict (verdict numF ⟨i.nodes, i.cents, eps⟩ t i.NF D))
+  | "C18.nodeface" => do
+      -- n face_node_table: the transpose computed by C03's proved model (rows padded at the end)
+      let (n, t) ← run (do let n ← nat; let t ← rows; pure (n, t)) args
+      pure (encRows (Incidence.nodeFace n t))
   | "C18.kept" => do
       let NF ← run rows args
       pure (encNats (keptNodes NF))
